@@ -141,6 +141,16 @@ def generate(seed, tier="quick"):
         tests.append({"name": f"test_ladder{var_n}", "events": events})
     # direct sites may be used by one textual event only: guaranteed by construction (fresh site per comparison)
     prog = {"files": [{"name": "test_a.py", "header": W.gen_layout(rng), "sites": sites, "tests": tests}], "pyproject": None}
+    qrng = sub(seed, "is-reeval")
+    if qrng.random() < 0.15:
+        # an == snapshot with an Is() part, evaluated three times (the Is() value changes each time) while the compared list keeps growing:
+        # what gets written for the managed part is the copy taken at the FIRST comparison
+        a, b, c = qrng.sample(range(1, 9), 3)
+        sites["isr"] = {"op": "eq", "place": "func", "arg": '[Is(G["v"]), []]', "prev": None, "first": a}
+        evs = [{"t": "stmt", "text": "seen = []"}]
+        for i, k in enumerate((a, b, c)):
+            evs += [{"t": "stmt", "text": f"set_g({k})"}, {"t": "stmt", "text": f"seen.append({k})"}, {"t": "stmt", "text": f"rec('isr_{i}', lambda: [{k}, seen] == get_isr())"}]
+        tests.append({"name": "test_is_reeval", "events": evs})
     approved = rng.choice([["create", "fix"], ["create", "fix"], ["create"], ["create", "fix", "trim"], ["trim"], ["fix", "trim"]])
     driver = "plugin" if sub(seed, "driver").random() < 0.08 else "inline"
     return {"program": prog, "approved": approved, "driver": driver, "fmt": draw_fmt(sub(seed, "fmt"))}
@@ -150,7 +160,7 @@ def _prune(prog):
     """drop sites without events; drop shared sites' direct duplicates"""
     for f in prog["files"]:
         used = {e["site"] for t in f["tests"] for e in t["events"] if e.get("t") == "cmp"}
-        f["sites"] = {k: v for k, v in f["sites"].items() if k in used}
+        f["sites"] = {k: v for k, v in f["sites"].items() if k in used or "first" in v}  # ("first": the site of the Is() re-evaluation test, driven by statements)
 
 
 def execute(case, ctx):
@@ -260,6 +270,18 @@ def execute(case, ctx):
                  f"site {sid} op={ops[sid]} place={sidx[sid][1]['place']} approved={sorted(approved)} driver={driver} fmt={fmt_tag(fmt)}\n"
                  f"  values at comparison time: {[repr(x)[:80] for x in sm.obs][:6]}\n  expected {want!r:.300}\n  written  {call.arg_text!r:.300}\n"
                  f"--- test file\n{files['test_a.py'][:1200]}")
+    isr = sidx.get("isr")
+    if isr is not None and ("test_a.py", "isr") in after:
+        ctx.count("probe_eq_snapshot_with_Is_part_reevaluated_while_the_value_grows")
+        call = after[("test_a.py", "isr")]
+        want = [isr[1]["first"]] if "fix" in approved else []
+        try:
+            got = P.eval_arg(call.arg_text)[1]
+        except Exception as ex:
+            got = f"<{ex}>"
+        if got != want:
+            viol("value-at-comparison-time", "eq:written-value-differs-from-value-at-comparison-time:Is-part-re-evaluated",
+                 f"approved={sorted(approved)} driver={driver}: the managed part was {want} at the first comparison, written: {call.arg_text!r}\n--- test file\n{files['test_a.py'][:1500]}")
     out["sample"] = {"approved": sorted(approved), "driver": driver, "file": files["test_a.py"][:900]}
     return out
 
